@@ -1029,7 +1029,15 @@ class RewriteAtQuery(NodeTransformer):
                         annotation=self.replacement_node.value,
                     )
 
-                if idx is not None and len(node.args.defaults) > idx:
+                if idx is not None:
+                    # `defaults` belong to the last arguments; `_idx` counts from the first non self/cls one
+                    idx -= (
+                        len(node.args.args)
+                        - len(node.args.defaults)
+                        - int(node.args.args[0].arg in frozenset(("self", "cls")))
+                    )
+
+                if idx is not None and -1 < idx < len(node.args.defaults):
                     new_default = get_value(self.replacement_node)
                     if new_default is not None:
                         node.args.defaults[idx] = new_default
